@@ -103,6 +103,7 @@ func c05history(tr *lib.Trace, r *rand.Rand, h int) {
 
 	// ---- damage
 	kind := "none"
+	var damaged *c05row
 	flip := func(off uint64, at int) {
 		store.Data(off)[at] ^= 0x5a
 	}
@@ -122,6 +123,7 @@ func c05history(tr *lib.Trace, r *rand.Rand, h int) {
 				rw := c[r.Intn(len(c))]
 				flip(rw.off, 3+r.Intn(8))
 				kind = "monotone"
+				damaged = rw
 			}
 		case x < 8:
 			// a row deleted later: the states in between are bad (good and bad mixed)
@@ -135,6 +137,7 @@ func c05history(tr *lib.Trace, r *rand.Rand, h int) {
 				rw := c[r.Intn(len(c))]
 				flip(rw.off, 3+r.Intn(8))
 				kind = "mixed"
+				damaged = rw
 			}
 		case x < 9:
 			// damaged state records (isolated bad states)
@@ -185,6 +188,23 @@ func c05history(tr *lib.Trace, r *rand.Rand, h int) {
 		}
 	}
 	tr.Count(fmt.Sprintf("vector-monotone=%v", mono))
+	// direct oracle on the check itself: a state passes iff it does not contain the damaged row
+	if damaged != nil && len(offsets) == k {
+		for i := range good {
+			p := k - 1 - i // state number from the oldest
+			contains := p >= damaged.insState && (damaged.delState < 0 || p < damaged.delState)
+			if good[i] == contains {
+				what := "passes the check although it contains the damaged record"
+				if !good[i] {
+					what = "fails the check although it does not contain the damaged record"
+				}
+				tr.Fail("check-wrong-verdict", fmt.Sprintf("history %d: %d states, damaged record %s inserted before state %d deleted before state %d: state %d %s (good, newest first = %s)",
+					h, k, damaged.key, damaged.insState, damaged.delState, p, what, vec))
+				break
+			}
+		}
+		tr.Count("oracle=check-verdict")
+	}
 
 	// ---- repair.search on the same store
 	rs := repair{store: store}
